@@ -779,29 +779,42 @@ func (s *State) applyExtension(fn object.Extension, args []object.Object) object
 	return fn.Callback(s, fn.Name, args)
 }
 
-// cacheableResult tells if serving the same object again for another call is safe.
-func cacheableResult(o object.Object, depth int) bool {
+// cacheableResult tells if serving the same object again for another call is safe (and worth it: a result that
+// is, as a tree, larger than maxCachedNodes isn't looked at any further - a small array holding itself a few times
+// at every level is exponentially large as a tree).
+func cacheableResult(o object.Object, _ int) bool {
+	budget := maxCachedNodes
+	return cacheable(o, &budget)
+}
+
+const maxCachedNodes = 1000
+
+func cacheable(o object.Object, budget *int) bool {
+	*budget--
+	if *budget < 0 {
+		return false
+	}
 	o = object.Value(o)
 	switch o.Type() { //nolint:exhaustive // the rest holds no other object.
 	case object.FUNC:
 		return false
 	case object.ARRAY:
-		if object.Len(o) > object.MaxSmallArray || depth > 100 {
+		if object.Len(o) > object.MaxSmallArray {
 			return false
 		}
 		for _, e := range object.Elements(o) {
-			if !cacheableResult(e, depth+1) {
+			if !cacheable(e, budget) {
 				return false
 			}
 		}
 	case object.MAP:
 		m := o.(object.Map)
-		if m.Len() > object.MaxSmallMap || depth > 100 {
+		if m.Len() > object.MaxSmallMap {
 			return false
 		}
 		for _, k := range object.Elements(o) {
 			v, _ := m.Get(k)
-			if !cacheableResult(k, depth+1) || !cacheableResult(v, depth+1) {
+			if !cacheable(k, budget) || !cacheable(v, budget) {
 				return false
 			}
 		}
